@@ -134,7 +134,7 @@ func phaseSchedules(c *lib.Ctx) {
 					if c.Expired() {
 						return
 					}
-					st := vsync.Explore(mkSchedBody(c.TmpDir, threads, ttl, age), vsync.Options{Bound: bound, MaxExecutions: 30000, Deadline: c.Deadline, Trace: true, ReleasePoints: true, StuckTimeout: 30 * time.Second}, nil)
+					st := vsync.Explore(mkSchedBody(c.TmpDir, threads, ttl, age), vsync.Options{Bound: bound, MaxExecutions: 30000, Deadline: c.Deadline, Trace: true, ReleasePoints: true, StuckTimeout: 120 * time.Second}, nil)
 					name := fmt.Sprintf("%s/ttl=%d/age=%d", strings.Join(threads, "|"), ttl, age)
 					c.Count("sched_executions", int64(st.Executions))
 					c.Count("sched_points", st.Points)
